@@ -8,6 +8,7 @@ import (
 
 	"github.com/attestantio/go-block-relay/services/blockauctioneer"
 	builderclient "github.com/attestantio/go-builder-client"
+	builderspec "github.com/attestantio/go-builder-client/spec"
 	"github.com/attestantio/go-eth2-client/spec/bellatrix"
 	"github.com/attestantio/go-eth2-client/spec/phase0"
 	"github.com/attestantio/vouch/internal/vnd"
@@ -15,7 +16,6 @@ import (
 	"github.com/attestantio/vouch/services/beaconblockproposer"
 	"github.com/attestantio/vouch/services/blockrelay"
 	v2 "github.com/attestantio/vouch/services/blockrelay/v2"
-	builderspec "github.com/attestantio/go-builder-client/spec"
 	e2wtypes "github.com/wealdtech/go-eth2-wallet-types/v2"
 )
 
@@ -187,7 +187,10 @@ func VerifC12_Live() {
 	c12Preload(s, 1+vnd.Choose("previous", 2))
 	done := 0
 	go func() { s.fetchExecutionConfig(context.Background()); done++ }()
-	go func() { _, _ = s.auctionBlock(context.Background(), 5, phase0.Hash32{}, phase0.BLSPubKey{7}, nil); done++ }()
+	go func() {
+		_, _ = s.auctionBlock(context.Background(), 5, phase0.Hash32{}, phase0.BLSPubKey{7}, nil)
+		done++
+	}()
 	if vnd.Bool("with-lookup") {
 		go func() { _, _ = s.ProposerConfig(context.Background(), nil, phase0.BLSPubKey{7}); done++ }()
 	} else {
@@ -198,7 +201,6 @@ func VerifC12_Live() {
 	vnd.Assert(vnd.HeldLocks() == 0, "C12.live.no-lock-left-held")
 	vnd.Cover("C12.live.done")
 }
-
 
 // VerifC12_SlowSource: while a refresh is waiting for a configuration source
 // that has not answered, requests for proposer settings and auctions return,
